@@ -58,6 +58,14 @@ CHECKS = {
             '256 unit ids x hosted-set shapes x flags x front-ends.',
             'Harness subclass of ModbusSlaveContext counts setValues; filter-dropped frames count as unanswered.',
             'DESIGN.md 4 C10'),
+    'C12': ('hypothesis hostile byte streams (random / mutated valid traffic / validly framed malformed PDUs) x chunkings x 7 front-ends x 5 framings; oracle = no escaping exception + justified-write finder + probe on a fresh connection',
+            'Generated byte streams of three kinds, arbitrarily chunked, fed to every server front-end driven in-process; the '
+            'check requires that no exception leaves the serving code, that every changed datastore cell is explained by a '
+            'well-formed write request inside a checksum-valid frame found anywhere in the stream by an independent frame finder, '
+            'that the handler terminates, and that a probe write+read on another connection of the same server object is answered '
+            'exactly as the model predicts afterwards.',
+            'Frame finder over-approximates acceptable frames (sound); Twisted reactor behaviour modelled; fake transports.',
+            'DESIGN.md 4 C12'),
     'C18': ('hypothesis operation histories on blocks / slave contexts / server contexts vs a dict model; exhaustive small-block sweeps',
             'Generated histories of validate/get/set/reset on sequential and sparse blocks with boundary-directed addresses, '
             'of function-code-addressed operations on a slave context (zero-mode on/off), and of set/get/del/contains on '
